@@ -38,6 +38,7 @@ func init() {
 		},
 		Real:       append(append([]string{}, realAll...), "db/fs (compiled against the simulated os)"),
 		Stub:       append(append([]string{}, stubAll...), "OS filesystem (simfs)", "goroutine scheduler decisions (baton, drawn from the tape)"),
+		HangSeconds: 120, // single runs of this check take seconds, more on a loaded machine
 		FaultKinds: []string{"schedule_switch", "restart"},
 		After:      c19RacePhase,
 		AfterFirst: true,
